@@ -4,6 +4,7 @@ import (
 	"fmt"
 	"go/token"
 	"go/types"
+	"strings"
 
 	"golang.org/x/tools/go/ssa"
 )
@@ -194,6 +195,7 @@ func checkC12(c *Ctx, r *Report) {
 	r.rule("C12.R3", "validate before effect: absent subscriber / absent session edge returns 4xx without reaching an effect; present edge dominates all effects", 4)
 	r.rule("C12.R4", "recharge: one notification to ue.NotifyUri naming the rating group on the found edge, none otherwise; RechargePut answers 204", 4)
 	r.rule("C12.R5", "every ProblemDetails status built in the processor is a 4xx constant", 8)
+	r.rule("C12.R8", "the subscriber a request is processed for is the one the request names: no code of the module assigns the request's subscriberIdentifier (a look-up that falls back to another subscriber answers 200/204 for a request naming an unknown one)", 1)
 	r.rule("C12.R7", "the notification URI registered at creation is not overwritten by update, release or recharge", 1)
 	r.rule("C12.R6", "after credit control has run, a 4xx answer reports a failed operation and is never a check of the request content", 6)
 
@@ -414,6 +416,7 @@ func checkC12(c *Ctx, r *Report) {
 
 	// ---- R4 recharge
 	checkRecharge(c, r)
+	checkRequestIdentity(c, r)
 	checkNotifyUriWriters(c, r, "C12.R7")
 
 	// ---- R5 status constants
@@ -611,6 +614,40 @@ func checkRecharge(c *Ctx, r *Report) {
 			}
 		}
 	})
+	// inside SendChargingNotification: the request goes to the consumer at most once on every path
+	// (a second post after a reported error doubles a notification that was delivered but
+	// acknowledged in a way the generated client calls an error)
+	{
+		var posts []*ssa.Call
+		eachInstr(send, func(_ *ssa.BasicBlock, _ int, ins ssa.Instruction) {
+			if call, ok := ins.(*ssa.Call); ok {
+				if obj := calleeObj(&call.Call); obj != nil && obj.Name() == "PostChargingNotification" && obj.Pkg() != nil && !strings.HasPrefix(obj.Pkg().Path(), modPath) {
+					posts = append(posts, call)
+				}
+			}
+		})
+		skey := fnKey(send) + "|posts per path"
+		switch {
+		case len(posts) == 0:
+			r.viol("C12.R4", skey, c.rel(send.Pos()), "SendChargingNotification does not post the notification (PostChargingNotification of the generated client not found)")
+		default:
+			bad := ""
+			for i, a := range posts {
+				if inCycle(a.Block()) {
+					bad = "the notification is posted in a loop at " + posOf(c, a)
+				}
+				for j, b := range posts {
+					if i == j {
+						continue
+					}
+					if a.Block() == b.Block() && instrIndex(a) < instrIndex(b) || a.Block() != b.Block() && reachableFrom(a.Block(), nil, nil, nil)[b.Block()] {
+						bad = "the notification posted at " + posOf(c, a) + " can be posted again at " + posOf(c, b) + " on the same path"
+					}
+				}
+			}
+			r.check(bad == "", "C12.R4", skey, posOf(c, posts[0]), "at most one post on every path", bad+": the consumer receives two re-authorisation notifications for one recharge")
+		}
+	}
 	// also sends hidden in callees other than SendChargingNotification are not expected
 	if len(sends) != 1 || find == nil {
 		r.viol("C12.R4", key+"|one-notification", c.rel(f.Pos()), fmt.Sprintf("%d notification call sites (expected exactly 1) or no subscriber look-up", len(sends)))
@@ -834,4 +871,30 @@ func onRawDataErrorEdge(ins ssa.Instruction) bool {
 		}
 	}
 	return false
+}
+
+// checkRequestIdentity (C12.R8): who may write the identity members of the request model.
+func checkRequestIdentity(c *Ctx, r *Report) {
+	n := 0
+	for _, f := range c.ModFuncs {
+		eachInstr(f, func(_ *ssa.BasicBlock, _ int, ins ssa.Instruction) {
+			st, ok := ins.(*ssa.Store)
+			if !ok {
+				return
+			}
+			fa, ok := st.Addr.(*ssa.FieldAddr)
+			if !ok || fieldName(fa) != "SubscriberIdentifier" {
+				return
+			}
+			nt := namedOf(fa.X.Type())
+			if nt == nil || nt.Obj().Pkg() == nil || !strings.Contains(nt.Obj().Pkg().Path(), "openapi/models") || !strings.HasSuffix(nt.Obj().Name(), "ChargingDataRequest") {
+				return
+			}
+			n++
+			r.viol("C12.R8", fnKey(rootOf(f))+"|assigns subscriberIdentifier", posOf(c, ins), "the request's subscriberIdentifier is assigned by "+shortFn(rootOf(f))+": the request is then processed for a subscriber it does not name - with an unknown subscriber and another subscriber's session reference it is answered 200/204 and changes that subscriber's records instead of being rejected")
+		})
+	}
+	if n == 0 {
+		r.proven("C12.R8", "request identity|no writer", "", "no function of the module assigns ChargingDataRequest.SubscriberIdentifier: the processor looks up the subscriber the request names")
+	}
 }
